@@ -427,6 +427,20 @@ def build_shape(g):
     cls = g["cls"]
     if cls == "PointCloud":
         return ms.PointCloud(pts)
+    if g.get("removed") and cls in ("PointUndirectedGraph", "LabelledPointUndirectedGraph"):
+        import warnings
+        R = np.array(g["removed"], dtype=int).reshape(-1, 2)
+        if cls == "PointUndirectedGraph":
+            o = ms.PointUndirectedGraph.init_from_edges(pts, np.vstack([E, R]))
+        else:
+            o = ms.LabelledPointUndirectedGraph.init_from_edges(
+                pts, np.vstack([E, R]), OrderedDict((l, np.array(m, dtype=bool)) for l, m in g["labels"]))
+        with warnings.catch_warnings():
+            warnings.simplefilter("ignore")
+            for a, b in g["removed"]:
+                o.adjacency_matrix[a, b] = 0
+                o.adjacency_matrix[b, a] = 0
+        return o
     if cls == "PointUndirectedGraph":
         return ms.PointUndirectedGraph.init_from_edges(pts, E)
     if cls == "PointDirectedGraph":
@@ -466,6 +480,13 @@ def gen_group(rng, name, d=None, cls=None):
         pairs = [(a, b) for a in range(n) for b in range(n) if a != b]
         k = 0 if (not pairs or rng.random() < 0.25) else rng.randint(1, min(len(pairs), 7))
         g["edges"] = [list(p) for p in rng.sample(pairs, k)]
+        if cls != "PointDirectedGraph" and pairs and rng.random() < 0.3:
+            # edges that existed and were removed in place (adjacency_matrix[i, j] = 0 leaves an explicitly stored
+            # zero in the sparse matrix): not edges of the exported object (seeded C16-4 wrote them to the file)
+            have = {(min(a, b), max(a, b)) for a, b in g["edges"]}
+            cand = sorted({(min(a, b), max(a, b)) for a, b in pairs} - have)
+            if cand:
+                g["removed"] = [list(p) for p in rng.sample(cand, rng.randint(1, min(3, len(cand))))]
     if cls == "PointTree":
         order = list(range(n))
         rng.shuffle(order)
